@@ -267,6 +267,28 @@ CLAIMED = {
              "Counterexamples are replayed on a real HDF5 file with the interruption injected at the same "
              "open.",
         ref="12 (as built)"),
+    "C20": dict(
+        text="PARTIAL. For one source entity of each copyable kind except data frames (a block with arrays, "
+             "descriptors, tag with references and feature, multi-tag, group, nested sources and metadata "
+             "links; an array; a tag; a multi-tag; a top-level and a nested section with properties and "
+             "subsections; a property), copied into 2-3 destinations (same parent, another parent of the "
+             "same file, another file), with no name / a new name / a name that is taken at the destination, "
+             "both id policies, recursive and non-recursive section copies: a taken name is refused and both "
+             "files stay exactly as they were; otherwise the RETURNED object is the copy (named as requested, "
+             "located in the destination), its observable content equals the source's recursively "
+             "(non-recursive section copies: properties, no subsections), the source is unchanged, ids are "
+             "the source's everywhere (keep) or all new, pairwise distinct and disjoint from every id that "
+             "existed (fresh), in a copied block the tag's, multi-tag's and group's links lead to the copied "
+             "array and not to the original, and one of four later changes (attribute, added child, deleted "
+             "child, change through a link) made to either side is invisible on the other.",
+        note="Decided is nixio's Python side: source path, destination, name, refusal before any write, id "
+             "policy, returned object, non-recursive handling - executed symbolically on fakeh5, whose copy "
+             "is a deep copy with H5Ocopy's sharing rules (links inside the hierarchy stay shared inside the "
+             "copy, cycles, links leaving it are duplicated, shallow = immediate members) pinned to h5py by "
+             "the differential script. NOT decided: libhdf5's byte-level copy; data frames (they do not run "
+             "with the installed NumPy); one fixture. Counterexamples are replayed on real HDF5 files. "
+             "KF-C20-1 (same-file copies with kept ids are not independent under deletion) is a known finding.",
+        ref="12 (as built)"),
     "C01": dict(
         text="PARTIAL - only the Python-side arithmetic and decisions of nixio are decided: "
              "(i) DataSet.append for ranks 1-3 (quick) / 1-4 (thorough), ALL non-negative extents of the "
@@ -295,9 +317,6 @@ NOT_APPLICABLE = {
     "C17": "Solver-based checking not applicable: flush/close durability under SIGKILL is libhdf5 cache "
            "flushing plus the kernel page cache; the repository's share is two delegating lines with "
            "no input to make symbolic, and crash points cannot be encoded with the tools present.",
-    "C20": "Solver-based checking not applicable: copy completeness/independence is decided by H5Ocopy "
-           "inside libhdf5; moreover H5Group.copy uses np.string_, which no longer exists in the "
-           "installed NumPy 2.x (all copy tests are in the baseline's always-fail list).",
 }
 
 PENDING_REASON = "check not built yet in this round (planned, see DESIGN.md section 3)"
